@@ -180,7 +180,9 @@ async def check_case(ctx, case):
             if rres.requirement_constraints_fulfilled is not outcomes[chosen]:
                 ctx.violation("part-outcome", f"{s!r} under {asg}: selected part reports fulfilled={rres.requirement_constraints_fulfilled!r}, reference semantics gives {outcomes[chosen]!r}", case=wcase)
                 return
-            if len(parts) == 1 and rres.requirement_is_conditional != own[1].requirement_is_conditional:
+            # (a fulfilled part of SEVERAL modal-mark parts is reported conditional whatever its own expression says - documented in the code;
+            # a part that is only returned because it is the last one keeps its own flag like a single part does)
+            if (len(parts) == 1 or not outcomes[chosen]) and rres.requirement_is_conditional != own[1].requirement_is_conditional:
                 ctx.violation("part-outcome", f"{s!r} under {asg}: requirement_is_conditional={rres.requirement_is_conditional!r}, the condition expression alone gives {own[1].requirement_is_conditional!r}", case=wcase)
                 return
 
